@@ -465,6 +465,28 @@ def _check_meta_call(col: Collector, m: Func, refs: Refs):
         col.violation(f"{m.fq}::fall-through", "a path falls off the end of the metaclass __call__ (returns None instead of a term)", m.loc())
 
 
+def _op_rule_unbounded(f: Func, cat: Catalogue, refs: Refs) -> bool:
+    """Is f registered (in any registry) under a pattern whose first element is an op class, and memoised without bound?"""
+    unbounded = False
+    for d in f.decorators:
+        r = refs.resolve(d.func if isinstance(d, ast.Call) else d)
+        if r == "functools.cache":
+            unbounded = True
+        if r == "functools.lru_cache":
+            if not isinstance(d, ast.Call):
+                continue  # bare @lru_cache: default maxsize 128
+            ms = [k.value for k in d.keywords if k.arg == "maxsize"] + list(d.args[:1])
+            if ms and isinstance(ms[0], ast.Constant) and ms[0].value is None:
+                unbounded = True
+    if not unbounded:
+        return False
+    for r in cat.registrations:
+        if r.target is f and r.pattern and isinstance(r.pattern[0], (ast.Name, ast.Attribute)):
+            if cat.op_class_ref(refs.resolve(r.pattern[0])) is not None:
+                return True
+    return False
+
+
 def _strong_memos(prog: Program, col: Collector, refs: Refs, cat: Catalogue):
     memo = {"functools.lru_cache", "functools.cache", "functools.cached_property"}
     for f in prog.funcs.values():
@@ -487,6 +509,9 @@ def _strong_memos(prog: Program, col: Collector, refs: Refs, cat: Catalogue):
                           "the weak intern table can never drop those terms (nor the arrays behind them)", f.loc())
         elif asserted:
             col.violation(construct, f"{decs[0]} on a function whose parameter `{asserted[0]}` is a term keeps those terms alive for ever", f.loc())
+        elif _op_rule_unbounded(f, cat, refs):
+            col.violation(construct, f"unbounded {decs[0]} on a rule that is dispatched on a parametrised op: every op instance (and every domain) it was ever called with "
+                          "stays alive, so the weak op / domain intern tables can never drop them", f.loc())
         else:
             col.ok(construct, "memo keyed by classes / domains / plain data, not by term instances", f.loc())
 
